@@ -163,7 +163,7 @@ theorem never_faults_full_current : never_faults_full {} := by
   | error e =>
     simp only []
     cases hk : e.kind with
-    | fault w => exact absurd hk (never_faults_current ⟨fun _ _ => rfl, fun _ => rfl, fun _ _ => rfl⟩ {} rfl current_default {} chunks e h w)
+    | fault w => exact absurd hk (never_faults_current ⟨fun _ _ => rfl, fun _ => rfl, fun _ _ => rfl, rfl, rfl⟩ {} rfl current_default {} chunks e h w)
     | hang => exact absurd hk (call_noHang_ref {} rfl {} chunks e h)
     | _ => simp [ErrKind.isFault]
 
